@@ -103,3 +103,29 @@ Print Assumptions C19_fail_frame.
 Theorem C19_fail_shadowed_refuted_before_fix : exists cs now, is_cond_true (fail_conds_before_fix cs now) CT_CanaryFailed = false.
 Proof. exact fail_shadowed_before_fix. Qed.
 Print Assumptions C19_fail_shadowed_refuted_before_fix.
+
+(** ... and they refuse ONLY then, or when what they ask for is already in place: with an ExtendedDaemonSet to act on, a
+    refusal implies - per command - no active canary / no canary strategy / paused already; nothing to unpause; validated
+    already for this replica set; the canary replica set missing; a canary in progress / paused (frozen) already; nothing
+    to unpause (unfreeze) *)
+Theorem C19_refuses_only_when : forall c e rs_exists,
+  run_cmd c (Some e) rs_exists = Refused ->
+  let ann := e_annots e in
+  let has_canary := match es_canary (e_status e) with Some _ => true | None => false end in
+  let has_strategy := match st_canary (e_strategy e) with Some _ => true | None => false end in
+  match c with
+  | CanaryPause => has_canary = false \/ has_strategy = false \/ a3_true (an_canary_paused ann) = true
+  | CanaryUnpause => has_canary = false \/ has_strategy = false \/ a3_true (an_canary_paused ann) = false
+  | CanaryValidate => match es_canary (e_status e) with
+                      | Some cs => an_canary_valid ann = Some (cs_rs cs)
+                      | None => True end
+  | CanaryFail => match es_canary (e_status e) with
+                  | Some cs => has_strategy = false \/ rs_exists (cs_rs cs) = false
+                  | None => True end
+  | RuPause => has_canary = true \/ a3_true (an_rolling_paused ann) = true
+  | RuUnpause => has_canary = true \/ a3_true (an_rolling_paused ann) = false
+  | Freeze => has_canary = true \/ a3_true (an_frozen ann) = true
+  | Unfreeze => has_canary = true \/ a3_true (an_frozen ann) = false
+  end.
+Proof. exact refuses_only_when. Qed.
+Print Assumptions C19_refuses_only_when.
